@@ -482,3 +482,184 @@ func ruleR1(c *Ctx) {
 		c.anchorFail("no ValueOfMessage/List/Map or cross-message Set found in lib/proto")
 	}
 }
+
+// ---------- R4 ----------
+
+func init() {
+	register("R4", "wrappers of one message share one freeze flag: every *bool given to a lib/proto wrapper (stored into a `frozen` field or passed to toStarlark/toStarlark1) is the `frozen` pointer of an existing wrapper, a forwarded parameter, or a new cell holding a constant - never a local snapshot initialised from another flag's current value, which would stay false when the message is frozen later", 8, ruleR4)
+	claim("C20", "R4")
+}
+
+func ruleR4(c *Ctx) {
+	n := 0
+	judge := func(fn *ssa.Function, v ssa.Value, key, pos string) {
+		n++
+		var why string
+		seen := map[ssa.Value]bool{}
+		var walk func(x ssa.Value) bool
+		walk = func(x ssa.Value) bool {
+			if seen[x] {
+				return true
+			}
+			seen[x] = true
+			switch y := x.(type) {
+			case *ssa.Parameter:
+				return true
+			case *ssa.FreeVar:
+				// a captured variable: judge the cell bound at the closure's creation
+				for _, mc := range closureSites(y.Parent()) {
+					if b := freeVarBinding(mc, y); b != nil && !walk(b) {
+						return false
+					}
+				}
+				return true
+			case *ssa.UnOp:
+				if fa, ok := y.X.(*ssa.FieldAddr); ok && y.Op == token.MUL {
+					if stt, _ := deref(fa.X.Type()).Underlying().(*types.Struct); stt != nil && stt.Field(fa.Field).Name() == "frozen" {
+						return true
+					}
+				}
+				why = "loaded from something that is not a wrapper's frozen field"
+				return false
+			case *ssa.Alloc:
+				if y.Referrers() != nil {
+					for _, r := range *y.Referrers() {
+						if st, ok := r.(*ssa.Store); ok && st.Addr == y {
+							if _, isConst := st.Val.(*ssa.Const); !isConst {
+								why = fmt.Sprintf("a local flag initialised at %s from a value computed at run time (a snapshot of another flag)", c.P.Pos(st.Pos()))
+								return false
+							}
+						}
+					}
+				}
+				return true
+			case *ssa.Phi:
+				for _, e := range y.Edges {
+					if !walk(e) {
+						return false
+					}
+				}
+				return true
+			case *ssa.Const:
+				return true // nil
+			}
+			why = fmt.Sprintf("unrecognised origin (%T)", x)
+			return false
+		}
+		if walk(v) {
+			c.ok(key, pos, "shared flag, forwarded parameter or constant-initialised cell")
+		} else {
+			c.viol(key, pos, "the wrapper does not share the message's freeze flag: it gets "+why+"; freezing the message later does not freeze this wrapper, and writes through it change frozen content")
+		}
+	}
+	for _, fn := range c.P.Funcs {
+		if fnPkgPath(fn) != modPath+"/lib/proto" {
+			continue
+		}
+		fn := fn
+		eachInstr(fn, func(in ssa.Instruction) {
+			switch x := in.(type) {
+			case *ssa.Store:
+				fa, ok := x.Addr.(*ssa.FieldAddr)
+				if !ok {
+					return
+				}
+				stt, _ := deref(fa.X.Type()).Underlying().(*types.Struct)
+				if stt == nil || stt.Field(fa.Field).Name() != "frozen" {
+					return
+				}
+				if _, isPtr := stt.Field(fa.Field).Type().(*types.Pointer); !isPtr {
+					return
+				}
+				judge(fn, x.Val, fmt.Sprintf("%s: %s.frozen =", fnName(fn), qualType(fa.X.Type())), c.P.Pos(x.Pos()))
+			case ssa.CallInstruction:
+				cal := x.Common().StaticCallee()
+				if cal == nil || fnPkgPath(cal) != modPath+"/lib/proto" {
+					return
+				}
+				for i, a := range x.Common().Args {
+					p, ok := a.Type().(*types.Pointer)
+					if !ok {
+						continue
+					}
+					if b, ok := p.Elem().Underlying().(*types.Basic); !ok || b.Kind() != types.Bool {
+						continue
+					}
+					_ = i
+					judge(fn, a, fmt.Sprintf("%s: flag passed to %s", fnName(fn), cal.Name()), c.P.Pos(x.Pos()))
+				}
+			}
+		})
+	}
+	if n < 8 {
+		c.anchorFail("only %d freeze-flag hand-overs found in lib/proto", n)
+	}
+}
+
+// ---------- R5 ----------
+
+func init() {
+	register("R5", "integers are read back unconverted: in lib/proto every integer obtained from a protoreflect.Value accessor (Int, Uint) reaches the Starlark constructor without a Go conversion that changes signedness or narrows it (uint64 -> int64 turns fixed64/uint64 values above 2^63 negative)", 2, ruleR5)
+	claim("C20", "R5")
+}
+
+func ruleR5(c *Ctx) {
+	n := 0
+	for _, fn := range c.P.Funcs {
+		if fnPkgPath(fn) != modPath+"/lib/proto" {
+			continue
+		}
+		fn := fn
+		eachInstr(fn, func(in ssa.Instruction) {
+			call, ok := in.(*ssa.Call)
+			if !ok {
+				return
+			}
+			cal := call.Call.StaticCallee()
+			if cal == nil || cal.Signature.Recv() == nil || (cal.Name() != "Int" && cal.Name() != "Uint") {
+				return
+			}
+			if pp, nn := namedOf(cal.Signature.Recv().Type()); nn != "Value" || !strings.HasSuffix(pp, "protoreflect") {
+				return
+			}
+			n++
+			key := fmt.Sprintf("%s: Value.%s()", fnName(fn), cal.Name())
+			pos := c.P.Pos(call.Pos())
+			bad := ""
+			if call.Referrers() != nil {
+				for _, r := range *call.Referrers() {
+					cv, ok := r.(*ssa.Convert)
+					if !ok {
+						continue
+					}
+					src, _ := cv.X.Type().Underlying().(*types.Basic)
+					dst, _ := cv.Type().Underlying().(*types.Basic)
+					if src == nil || dst == nil || dst.Info()&types.IsInteger == 0 {
+						continue
+					}
+					srcU, dstU := src.Info()&types.IsUnsigned != 0, dst.Info()&types.IsUnsigned != 0
+					if srcU != dstU {
+						bad = fmt.Sprintf("converted %s -> %s at %s (signedness changes)", src.Name(), dst.Name(), c.P.Pos(cv.Pos()))
+					} else if c.P.sizes().Sizeof(dst) < c.P.sizes().Sizeof(src) {
+						// narrowing is legitimate only for 32-bit kinds; it must then be an enum number or be range-checked: flagged only when the result becomes a number
+						if cv.Referrers() != nil {
+							for _, r2 := range *cv.Referrers() {
+								if ci, ok := r2.(ssa.CallInstruction); ok && ci.Common().StaticCallee() != nil && strings.HasPrefix(ci.Common().StaticCallee().Name(), "Make") {
+									bad = fmt.Sprintf("narrowed %s -> %s at %s before becoming a Starlark int", src.Name(), dst.Name(), c.P.Pos(cv.Pos()))
+								}
+							}
+						}
+					}
+				}
+			}
+			if bad != "" {
+				c.viol(key, pos, "the field's integer value is "+bad+": values outside the target type's range read back as different numbers")
+			} else {
+				c.ok(key, pos, "reaches its uses without a lossy conversion")
+			}
+		})
+	}
+	if n < 2 {
+		c.anchorFail("only %d protoreflect integer accessors found in lib/proto", n)
+	}
+}
